@@ -4,7 +4,7 @@
 //
 // usage: parser_harness split <shard> <nshards> <level>     level 0 = quick, 1 = thorough
 //        parser_harness bytes <shard> <nshards> <maxlen>
-//        parser_harness mut <shard> <nshards>
+//        parser_harness mut <shard> <nshards> <max length for 2-cut splits>
 //        parser_harness one <escaped-bytes> [cut ...]        replay a single case, prints the outcome
 #include "hist/hist.h"
 #include <tbox/http/server/request_parser.h>
@@ -12,6 +12,7 @@
 #include <tbox/http/url.h>
 #include <tbox/util/buffer.h>
 #include <cstdint>
+#include <sys/time.h>
 #include <map>
 #include <set>
 #include <stdexcept>
@@ -61,7 +62,7 @@ struct Outcome {
     std::string s = reqs; if (fail) s += " FAIL"; if (over) s += " OVERCONSUME"; if (noprogress) s += " NO-PROGRESS";
     if (!exc.empty()) s += " EXC:" + exc; s += " rest=" + std::to_string(rest); return s; }
 };
-static long g_parse_calls = 0;
+static volatile long g_parse_calls = 0;
 
 static std::string case_text(const std::string &data, const size_t *cuts, int ncuts) {
   std::string t = "bytes=\"" + esc(data) + "\" len=" + std::to_string(data.size()) + " cuts=[";
@@ -226,7 +227,7 @@ static int run_split(long shard, long nshards, int level, double deadline) {
   for (long i = 0; i < n && !late(); i++) if (mine()) sweep_stream(make_stream(g, {(int)i}), level ? 3 : 2, true);
   // 2-request streams: quick = A x A for a covering subset A (stride through the grammar), thorough = (all x B) + (B x all), B covering subset
   std::vector<int> A, B, C;
-  for (long i = 0; i < n; i += (level ? 7 : 17)) A.push_back((int)i);     // stride co-prime to every grammar dimension
+  for (long i = 0; i < n; i += (level ? 7 : 23)) A.push_back((int)i);     // stride co-prime to every grammar dimension
   for (long i = 0; i < n; i += 37) B.push_back((int)i);
   for (long i = 0; i < n; i += (level ? 41 : 89)) C.push_back((int)i);
   if (!level) { for (int a : A) for (int b : A) { if (late()) break; if (mine()) sweep_stream(make_stream(g, {a, b}), 2, true); } }
@@ -350,7 +351,7 @@ static std::vector<Mut> mutations() {
   return v;
 }
 
-static int run_mut(long shard, long nshards, double deadline) {
+static int run_mut(long shard, long nshards, int two_cut_max, double deadline) {
   auto ms = mutations(); long execs = 0, distinct = 0, work = 0; int samples = 0;
   std::string second = "GET /next HTTP/1.1\r\nContent-Length: 0\r\n\r\n";
   for (auto &m : ms) {
@@ -364,13 +365,13 @@ static int run_mut(long shard, long nshards, double deadline) {
       size_t L = data.size();
       if (L <= 400) {                                       // every 1-cut and (short inputs) 2-cut split, plus byte-by-byte
         size_t c[2];
-        for (c[0] = 1; c[0] < L; c[0]++) { total_check(mode.c_str(), data, c, 1, execs); if (L <= 120) for (c[1] = c[0] + 1; c[1] < L; c[1]++) total_check(mode.c_str(), data, c, 2, execs); }
+        for (c[0] = 1; c[0] < L; c[0]++) { total_check(mode.c_str(), data, c, 1, execs); if (L <= (size_t)two_cut_max) for (c[1] = c[0] + 1; c[1] < L; c[1]++) total_check(mode.c_str(), data, c, 2, execs); }
       }
       for (size_t k : {1, 2, 3, 7, 1024}) { std::vector<size_t> cuts; for (size_t x = k; x < L; x += k) cuts.push_back(x); if (!cuts.empty()) total_check(mode.c_str(), data, cuts.data(), (int)cuts.size(), execs); }
       if (samples < 2 && variant == 0 && (distinct % 40) == 4) { samples++; printf("@SAMPLE %s %s\n", mode.c_str(), case_text(data, nullptr, 0).substr(0, 240).c_str()); }
     }
   }
-  printf("@INFO mut shard %ld/%ld: %zu single-field mutations (all shards) x 3 contexts, every 1-cut split (2-cut when <=120 bytes), uniform chunks 1/2/3/7: inputs=%ld feeds=%ld\n", shard, nshards, ms.size(), distinct, execs);
+  printf("@INFO mut shard %ld/%ld: %zu single-field mutations (all shards) x 3 contexts, every 1-cut split (2-cut when <=%d bytes), uniform chunks 1/2/3/7: inputs=%ld feeds=%ld\n", shard, nshards, ms.size(), two_cut_max, distinct, execs);
   printf("@STAT states=%ld transitions=%ld executions=%ld mutation_inputs=%ld parse_calls=%ld violations=%ld\n", distinct, execs, execs, distinct, g_parse_calls, g_viol_total);
   return 0;
 }
@@ -382,11 +383,14 @@ int main(int argc, char **argv) {
   hx::install_crash_reporter("C12-parser-crash");
   // UBSan (-fno-sanitize-recover) dies without a signal: report the case from the sanitizer death callback (ASan reports go through __asan_on_error)
   __sanitizer_set_death_callback([] { if (!__asan_report_present()) hx::emit_crash("ubsan-or-sanitizer-abort"); });
+  // termination: 10 CPU-seconds without a single parse() call returning = the parser does not terminate on the current input
+  signal(SIGPROF, [](int) { static long last = -1; if (g_parse_calls == last) { hx::emit_crash("parse-does-not-terminate"); _exit(1); } last = g_parse_calls; });
+  { struct itimerval it; memset(&it, 0, sizeof it); it.it_value.tv_sec = it.it_interval.tv_sec = 10; setitimer(ITIMER_PROF, &it, nullptr); }
   double deadline = hx::deadline_from_env(600);
   int rc = 0;
   if (mode == "split") { g_cur_mode = "split"; rc = run_split(atol(argv[2]), atol(argv[3]), atoi(argv[4]), deadline); flush_outcomes("split"); }
   else if (mode == "bytes") { g_cur_mode = "bytes"; rc = run_bytes(atol(argv[2]), atol(argv[3]), atoi(argv[4]), deadline); flush_outcomes("bytes"); }
-  else if (mode == "mut") { rc = run_mut(argc > 2 ? atol(argv[2]) : 0, argc > 3 ? atol(argv[3]) : 1, deadline); flush_outcomes("mut"); }
+  else if (mode == "mut") { rc = run_mut(argc > 2 ? atol(argv[2]) : 0, argc > 3 ? atol(argv[3]) : 1, argc > 4 ? atoi(argv[4]) : 80, deadline); flush_outcomes("mut"); }
   else if (mode == "one") {
     std::string data = unesc(argc > 2 ? argv[2] : ""); std::vector<size_t> cuts; for (int i = 3; i < argc; i++) cuts.push_back((size_t)atol(argv[i]));
     Outcome o = feed(data, cuts.data(), (int)cuts.size()); printf("%s => %s\n", case_text(data, cuts.data(), (int)cuts.size()).c_str(), o.str().c_str());
